@@ -16,7 +16,7 @@ def main():
     os.chdir(common.VERIF)
     common.setup_impl_path()
     mod = importlib.import_module("props." + a.prop.lower())
-    chk = common.Check(a.prop, a.tier, seed)
+    chk = common.Check(a.prop, a.tier, seed, clear_replays=not a.replay)
     try:
         if a.replay:
             return mod.replay(chk, a.replay)
